@@ -1,6 +1,7 @@
 package world
 
 import (
+	standardprocess "github.com/attestantio/dirk/services/process/standard"
 	"github.com/herumi/bls-eth-go-binary/bls"
 	"github.com/attestantio/dirk/util"
 	pb "github.com/wealdtech/eth2-signer-api/pb/v1"
@@ -105,6 +106,9 @@ type Base struct {
 	PubKeys map[string][]byte
 	Paths   map[string]string
 	g       *gmap
+	// run-time account creation (scenario op "create" and arrivals)
+	solo     *standardprocess.Service
+	createMu sync.Mutex
 }
 
 var blsOnce sync.Once
